@@ -286,9 +286,16 @@ func (fx *fctx) convert(st *State, v *Value, to types.Type, n ast.Node) *Value {
 	case kf == kSlice && kt == kScalar && st2 == SStr:
 		// string(bytes) / string(runes)
 		el := v.T.Underlying().(*types.Slice).Elem()
-		r := ts.Fresh("str", SStr)
 		if b, ok := el.Underlying().(*types.Basic); ok && b.Kind() == types.Uint8 {
+			// string(bytes): a function of the byte heap (by id), the start and the length, so that slicing and
+			// concatenation of such strings can be related (axioms of bstr in the prelude)
+			h := e.heapGet(st, e.elemKey(el), ArrSort(SInt))
+			r := ts.App("bstr", SStr, e.heapID(h), v.Sl.Ptr, v.Sl.Len)
 			st.assume(ts.Eq(ts.App("str_len", SInt, r), v.Sl.Len))
+			return &Value{T: to, Tm: r}
+		}
+		r := ts.Fresh("str", SStr)
+		if false {
 		} else {
 			st.assume(ts.Ge(ts.App("str_len", SInt, r), v.Sl.Len))
 		}
